@@ -106,9 +106,9 @@ BUS_PROPS = {
     'C05': dict(oracle=lambda F, w: oracle.c05(F),
                 profiles=[('clean', 3), ('backlog', 3), ('gap', 2), ('multi', 2), ('nested', 2), ('await_any', 2), ('multi_stop', 3)]),
     'C06': dict(oracle=lambda F, w: oracle.c06(F),
-                profiles=[('clean', 1), ('multi', 4), ('nested', 2), ('parallel', 2), ('stalls', 2), ('gap', 2), ('multi_fwd', 2), ('multi_stop', 4), ('errors_parallel', 3)]),
+                profiles=[('clean', 1), ('multi', 4), ('nested', 2), ('parallel', 2), ('stalls', 2), ('gap', 2), ('multi_fwd', 2), ('multi_stop', 4), ('errors_parallel', 3), ('timeouts_cleanup', 3)]),
     'C07': dict(oracle=lambda F, w: oracle.c07(F),
-                profiles=[('topo', 5), ('topo_traffic', 4), ('topo_redispatch', 3), ('topo_small_history', 3), ('multi_fwd', 2)]),
+                profiles=[('topo', 5), ('topo_traffic', 4), ('topo_redispatch', 3), ('topo_small_history', 3), ('multi_fwd', 2), ('topo_timeouts', 3)]),
     'C08': dict(oracle=lambda F, w: oracle.c08(F), watch=completion_watch,
                 profiles=[('topo', 4), ('topo_traffic', 2), ('multi_fwd', 3), ('nested', 2), ('redispatch', 2), ('clean', 1), ('errors', 3), ('timeouts', 3), ('timeouts_clean', 1), ('late_child', 3)]),
     'C09': dict(oracle=lambda F, w: oracle.c09(F),
